@@ -148,12 +148,13 @@ func (i *inspect) addIndexes(t *schema.Table, rows *sql.Rows) error {
 			},
 		}
 		if partial {
-			i := strings.Index(stmt.String, "WHERE")
-			if i == -1 {
+			// The WHERE keyword (in any case) follows the list of index parts.
+			m := reIndexWhere.FindStringIndex(stmt.String)
+			if m == nil {
 				return fmt.Errorf("missing partial WHERE clause in: %s", stmt.String)
 			}
 			idx.Attrs = append(idx.Attrs, &IndexPredicate{
-				P: strings.TrimSpace(stmt.String[i+5:]),
+				P: strings.TrimSpace(stmt.String[m[1]:]),
 			})
 		}
 		t.Indexes = append(t.Indexes, idx)
@@ -534,6 +535,9 @@ func setGenExpr(t *schema.Table, c *schema.Column, f int64) error {
 	c.SetGeneratedExpr(&schema.GeneratedExpr{Expr: expr, Type: typ})
 	return nil
 }
+
+// reIndexWhere matches the WHERE keyword of a partial index definition.
+var reIndexWhere = regexp.MustCompile("(?i)\\)\\s*WHERE\\b")
 
 // The following regexes extract named FKs and CHECK constraints defined in table-constraints or inlined
 // as column-constraints. Note, we assume the SQL statements are valid as they are returned by SQLite.
